@@ -68,3 +68,16 @@ pub fn wrapping_rem_mix<const BITS: usize, const LIMBS: usize>(a: Uint<BITS, LIM
 pub fn div_rem_mix<const BITS: usize, const LIMBS: usize>(a: Uint<BITS, LIMBS>, b: Uint<BITS, LIMBS>) -> (Uint<BITS, LIMBS>, Uint<BITS, LIMBS>) {
     (mix(&a, &b, 0x5555), mix(&b, &a, 0x6666))
 }
+
+// ---- shape pinning (DESIGN 4.4): kernels that the harness' domain makes
+// unreachable are replaced by panicking bodies; reaching one is a checked
+// failure, not an assumption.
+pub fn pinned_div_nx1(_limbs: &mut [u64], _divisor: u64) -> u64 {
+    panic!("pinned: div_nx1 not expected at this shape")
+}
+pub fn pinned_div_nx2(_limbs: &mut [u64], _divisor: u128) -> u128 {
+    panic!("pinned: div_nx2 not expected at this shape")
+}
+pub fn pinned_div_nxm(_numerator: &mut [u64], _divisor: &mut [u64]) {
+    panic!("pinned: div_nxm not expected at this shape")
+}
